@@ -145,6 +145,10 @@ def mk_cond(m, rng, cls, R, Dy, Dx, give=None, b_none=False, tag=""):
         M = np.tile(np.eye(Dy)[None], (R, 1, 1)); b = np.zeros((R, Dy))
     else:
         M = rng.standard_normal((R, Dy, Dx)); b = np.zeros((R, Dy)) if b_none else rng.standard_normal((R, Dy))
+        if "bzero" in tag:          # an offset with SOME entries exactly zero
+            b[0, 0] = 0.0
+            if Dy > 1 and R > 1:
+                b[-1, -1] = 0.0
         kw = dict(Sigma=S) if give == "Sigma" else (dict(Lambda=L) if give == "Lambda" else dict(Sigma=S, Lambda=L, ln_det_Sigma=ld))
         reg = m.cond(R, Dy, Dx, M, None if b_none else b, diag=diag, **kw)
     return Obj(reg, M=M, b=b, Sigma=S, Lambda=L, ln_det_Sigma=ld, R=R, Dy=Dy, Dx=Dx, cls=cls)
